@@ -292,11 +292,19 @@ ApplyOp(st, s) ==
 \* s = [k |-> "leaf", h, sh, v (Seq of Rat), const]
 \* integer and boolean tensors are constant whatever was asked for (C10)
 LeafConst(s) == s.const \/ Kw(s, "dt", "f8") \in {"i8", "b1"}
+\* order = "F": the tensor is built from a Fortran-ordered array (mg.tensor keeps the layout of what it copies)
+LeafLayout(s) == IF Kw(s, "order", "C") = "F" /\ Len(s.sh) >= 2
+                 THEN LET n == Len(s.sh) fst == [a \in 1..n |-> SeqProd(SubSeq(s.sh, 1, a - 1))]
+                      IN [p \in 1..Size(s.sh) |-> LET oi == Unravel(p, s.sh) IN 1 + SeqSum([a \in 1..n |-> oi[a] * fst[a]])]
+                 ELSE Iota(Len(s.v))
 ApplyLeaf(st, s) ==
   LET c == LeafConst(s)
-      st1 == NewBuf(st, [i \in 1..Len(s.v) |-> DC(s.v[i])], c)
+      lay == LeafLayout(s)
+      n == Len(s.v)
+      inv == [m \in 1..n |-> CHOOSE p \in 1..n : lay[p] = m]
+      st1 == NewBuf(st, [m \in 1..n |-> DC(s.v[inv[m]])], c)
       st2 == NewNodeB(st1, <<>>, c, FALSE, Len(st1.mem))
-  IN PutH(st2, s.h, MkH("t", Len(st1.mem), Iota(Len(s.v)), s.sh, c, Len(st2.N), 0, 0))
+  IN PutH(st2, s.h, MkH("t", Len(st1.mem), lay, s.sh, c, Len(st2.N), 0, 0))
 
 \* ------------------------------------------------------------------ in-place updates
 \* The view family of root r: r and every registered (live) view descendant.
@@ -526,7 +534,10 @@ ApplySetShape(st, s) ==
   ELSE IF hr.base = 0
   \* a memory owner: an in-place update that changes no value - earlier consumers keep the old tensor, the reshaped
   \* one is a new node (fresh perturbation variables), its gradient is dropped, its views are re-created
-  THEN LET st1 == InPlace(st, s.t, <<>>, <<>>, TRUE) IN [st1 EXCEPT !.H[s.t].sh = nsh]
+  \* (the setter re-registers a consumer on the reshaped tensor, so an un-re-routed older consumer - F-C09-1 - is
+  \*  never caught by the staleness guard: manifest at once)
+  THEN LET st1 == InPlace(st, s.t, <<>>, <<>>, TRUE)
+       IN [st1 EXCEPT !.H[s.t].sh = nsh, !.kf = IF st1.pend # st.pend THEN @ \cup {"F-C09-1"} ELSE @]
   \* a view: it stays a view of its base (whose gradient is untouched); its own registered views are re-created
   ELSE LET st1 == NewNode(st, <<hr.node>>, hr.const, TRUE)
            st2 == [st1 EXCEPT !.H[s.t].sh = nsh, !.H[s.t].node = Len(st1.N), !.H[s.t].gc = 0]
